@@ -73,6 +73,42 @@ func TestVerifC17(t *testing.T) {
 		vEmit(c)
 		rs.Close()
 	}
+	// (b2) the server falls silent in the middle of a message: the header of a frame and a part of its payload arrive, then
+	// nothing (the socket stays open); the client gives the session up within the bound and dials again
+	{
+		rs := vStartRawServer(skey, ckey.Pub)
+		ctx, cancel := context.WithTimeout(context.Background(), 60*time.Second)
+		cc, err := vDialLib(ctx, rs.Addr, ckey, skey.Pub, WithBlock())
+		c := vCase{Class: "e2e/client-detects-server-silent-mid-message", Sig: "e2e-b2"}
+		if err != nil {
+			c.Fail = "client-dial-failed"
+		} else {
+			conn := <-rs.Conns
+			// a binary frame of 4096 bytes is announced (server frames are not masked), 100 bytes of it are sent
+			_, _ = conn.UnderlyingConn().Write(append([]byte{0x82, 126, 0x10, 0x00}, make([]byte, 100)...))
+			start := time.Now()
+			wctx, wcancel := context.WithTimeout(context.Background(), bound)
+			left := cc.WaitForStateChange(wctx, connectivity.Ready)
+			wcancel()
+			at := time.Since(start)
+			again := false
+			select {
+			case <-rs.Conns:
+				again = true
+			case <-time.After(3 * time.Second):
+			}
+			c.Info = map[string]interface{}{"outcome": fmt.Sprintf("left_ready=%v reconnected=%v", left, again), "after_ms": at.Milliseconds(), "bound_ms": bound.Milliseconds()}
+			if !left {
+				c.Fail = "e2e-silent-server-not-detected"
+			} else if !again {
+				c.Fail = "e2e-no-reconnect-after-detection"
+			}
+			vClose(cc, 5*time.Second)
+		}
+		cancel()
+		vEmit(c)
+		rs.Close()
+	}
 	// (c) an idle healthy session is kept over six ping periods
 	{
 		ls := vStartLibServer(skey, []ed25519.PublicKey{ckey.Pub}, true)
